@@ -8,6 +8,7 @@ import rules_own
 import rules_ct
 import rules_sibling
 import rules_codec
+import rules_ftype
 
 
 class Context:
@@ -56,9 +57,21 @@ STRUCTURAL = ("exact static rule check over all paths of the enumerated function
               "decides the named structural clauses (necessary conditions), not the behaviour itself")
 
 PROPS = {
+    "C04": {
+        "title": "Set algebra (union, intersection, difference, complement, cross) is pointwise",
+        "rules": [rules_ftype.rule_mix_sets, callers_for("C04")],
+        "explanation": STRUCTURAL + ". C04: cross-forest clause (every handle in union/intersection/difference/complement/cross/copy is used only with its own forest, for every assignment of operand and result forests; "
+                       "what is returned, stored or chained in the result forest was produced there) and immutability clause (operations cannot reach the primitives that rewrite packed nodes).",
+        "assumptions": ["that the recursion computes OR/AND/AND-NOT/NOT/cross is not decided", "terminal handles are treated as forest independent (value translation between range types is not checked)",
+                        "handles read from compute-table results are untyped until linked with a forest"],
+        "technique": "forest-indexed typing of node handles (path-sensitive dataflow over clang CFGs, symbols = forest members of the operation class); who-may-call tables",
+        "level_text": "exact static rule check over every method of the set-algebra operation classes; decides the cross-forest and immutability clauses",
+        "design_ref": "DESIGN.md §2.2, §2.5, §3 C04",
+        "level_note": "trusts clang 14 CFGs and the role table of compute() parameters in tool/msa/ftype.cc",
+    },
     "C05": {
         "title": "Element-wise arithmetic, comparison, min/max and user-defined maps are pointwise",
-        "rules": [on_program(rules_guard.rule_div_zero), on_program(rules_guard.rule_sub_infinity), on_program(rules_sibling.rule_mirror_simplify)],
+        "rules": [on_program(rules_guard.rule_div_zero), on_program(rules_guard.rule_sub_infinity), on_program(rules_sibling.rule_mirror_simplify), rules_ftype.rule_mix_arith],
         "explanation": STRUCTURAL + ". C05: partiality clause (every `/` and `%` on operand values is dominated by a zero test throwing DIVIDE_BY_ZERO; x - infinity throws SUBTRACT_INFINITY), "
                        "mirror clause (for a commutative operation the two shortcut predicates simplifiesToFirstArg/SecondArg are mirror images), cross-forest clause (handles are used only with their own forest).",
         "assumptions": ["pointwise values and the correctness of the shortcut predicates themselves are not decided", "only policies with commutes()==true are subject to the mirror law"],
@@ -89,6 +102,26 @@ PROPS = {
         "level_text": "exact static rule check over lastUnlink/lastUncache/recycleNodeHandle/uncacheNode/unlinkNode and every instantiation of ct_tmpl::{find,isDead,isStale,addEntry,result2entry,deleteEntry}; decides the recycle gate, dead-before-hit and count-symmetry clauses",
         "design_ref": "DESIGN.md §2.3, §3 C07",
         "level_note": "trusts clang 14 CFGs; local bool flags (equal/remove) are tracked only when assigned literals or call results",
+    },
+    "C09": {
+        "title": "One-step image and vector-matrix products follow the relational definition",
+        "rules": [rules_ftype.rule_mix_image],
+        "explanation": STRUCTURAL + ". C09: cross-forest clause — in the image / vector-matrix template (all instantiations), its helpers and the relation-node abstraction, set forest, relation forest and result forest are three symbols and every handle is used only with its own.",
+        "assumptions": ["the relational definition itself is not decided", "prepost_set_mtrel's private _compute is reached with swapped operands for MV_MULTIPLY; its parameter roles are then left unknown (no alarm, fewer checks)"],
+        "technique": "forest-indexed typing of node handles over clang CFGs",
+        "level_text": "exact static rule check over prepost_sets.cc, prepost_common.h, reach_trad.cc, satur_sets.cc, rel_node.h; decides the cross-forest clause only",
+        "design_ref": "DESIGN.md §2.2, §3 C09",
+        "level_note": "trusts clang 14 CFGs and the role table of compute() parameters",
+    },
+    "C10": {
+        "title": "Copying between forests preserves the function",
+        "rules": [rules_ftype.rule_mix_copy],
+        "explanation": STRUCTURAL + ". C10: cross-forest clause — copy_MT, copy_EV_fast, copy_EV<…> read only the source forest and build only in the target forest (copy_inforest: one forest by construction).",
+        "assumptions": ["scalar conversions and round-trip identity are not decided", "terminal handles are treated as forest independent"],
+        "technique": "forest-indexed typing of node handles over clang CFGs",
+        "level_text": "exact static rule check over operations/copy.cc (all instantiations); decides the cross-forest clause only",
+        "design_ref": "DESIGN.md §2.2, §3 C10",
+        "level_note": "trusts clang 14 CFGs and the role table of compute() parameters",
     },
     "C13": {
         "title": "Variable reordering preserves every function and every held edge",
@@ -125,7 +158,7 @@ PROPS = {
     },
     "C16": {
         "title": "Misuse is rejected with the documented error and leaves all functions intact",
-        "rules": [on_program(r) for r in rules_guard.RULES] + [rules_orphan.rule_orphan, rules_orphan.rule_iterator_init,
+        "rules": [on_program(r) for r in rules_guard.RULES] + [rules_ftype.rule_entry, rules_orphan.rule_orphan, rules_orphan.rule_iterator_init,
                   # "use of an edge whose forest was destroyed raises an error" rests on the registry discipline
                   on_program(rules_life.rule_forest_dtor), on_program(rules_life.rule_unregister), on_program(rules_life.rule_registry)],
         "explanation": STRUCTURAL + ". C16: every misuse named by the property has a check that dominates the dangerous use and throws the documented code: constructor-chain "
